@@ -66,6 +66,7 @@ fn lines() {
             }
             "updt" => updater::run_timed(&toks[1..]),
             "upd2" => updater::run_two(&toks[1..]),
+            "updl" => updater::run_live(&toks[1..]),
             "shm" => engine::run(&toks[1..]),
             "shmd" | "shmc" => {
                 engine::FAMILY.store(if toks[0] == "shmc" { 2 } else { 1 }, std::sync::atomic::Ordering::SeqCst);
@@ -80,6 +81,7 @@ fn lines() {
             "seg" => segfile::run_seg(&toks[1..]),
             "sgo" => segfile::run_sgo(&toks[1..]),
             "pol" => poller::run(&toks[1..]),
+            "polt" => poller::run_timed(&toks[1..]),
             "wld" => world::run(&toks[1..]),
             "thr" => {
                 // worker threads may be left behind on a violation: answer and leave the process
